@@ -393,7 +393,7 @@ def run_threads(rc, cfg, types, dec):
     e = rc.eliot
     st = dec.stream("prog")
     s = Sched(dec.stream("sched"), p_switch=cfg["p_switch"], gran="line", max_steps=400000,
-              traced=["_output.py", "_traceback.py", "_validation.py"], call_budget=None)
+              traced=["_output.py", "_traceback.py", "_validation.py"], call_budget=8000)
     rc.sched = s
     rc.clock = seams.begin_run(rc.seed)
     rc.tap = Tap(rc, deep=False)
@@ -531,7 +531,7 @@ def run_one(seed, dec):
         return res
     ops = gen_ops(st, cfg, types, 0, [cfg["n_ops"], 0])
     rc = RunCtx(ID, seed, dec, cfg)
-    s = Sched(dec.stream("sched"), max_steps=10 ** 6, call_budget=100000)
+    s = Sched(dec.stream("sched"), max_steps=10 ** 6, call_budget=20000)
     rc.sched = s
     rc.clock = seams.begin_run(seed)
     rc.tap = Tap(rc, deep=False)
